@@ -542,6 +542,10 @@ func (env *SpecEnv) evalCall(e *SExpr) Val {
 		return Val{T: app("select", fc.heapGet(env.st(), "$oncedone", "(Array Int Bool)"), a.T), Ty: tBool}
 	case "chancap": // capacity given to make(chan T, n) (0 for an unbuffered channel)
 		return Val{T: app("select", fc.heapGet(env.st(), "$chancap", "(Array Int Int)"), arg(0).T), Ty: tInt}
+	case "lockcalls": // number of Lock/RLock calls executed so far (any mutex)
+		return Val{T: fc.heapGet(env.st(), "$lockcalls", "Int"), Ty: tInt}
+	case "unlockcalls": // number of Unlock/RUnlock calls executed so far (any mutex)
+		return Val{T: fc.heapGet(env.st(), "$unlockcalls", "Int"), Ty: tInt}
 	case "spawned": // number of go statements executed by this function so far
 		return Val{T: fc.heapGet(env.st(), "$spawns", "Int"), Ty: tInt}
 	case "noelems": // the empty set of references ([0]bool, all false)
